@@ -48,6 +48,17 @@ CLAIMED = {
              "known findings K1, K2 (recorded, classes excluded).",
         note=TTY_NOTE + "KNOWN-FINDING lines K1, K2 are printed while their witnesses reproduce.",
         technique="Coq proof: induction over the kill run (inductive relation for pieces around the cursor), case analysis of the ring arithmetic; extracted-model differential check through a pty + reference-ring oracle"),
+    "C07": dict(
+        text="Theorems over the editor model: the stored history is read-only -- for EVERY input, mode, helper and binding the main "
+             "loop (byte reader, keymaps, digit arguments, completion and search sub-loops, every command) returns with the "
+             "history list unchanged (induction over the loop's fuel through all of the keymap code); moving up shows the next "
+             "older entry exactly as stored with the cursor at its end and captures the line being typed when and only when "
+             "recall starts from it; moving down shows the next newer entry and, past the newest, restores the captured text "
+             "and cursor exactly; both directions stop at the ends without changing anything; first/last-entry commands land "
+             "where enough ups/downs would. PARTIAL: Up/Down inside multi-line text (line motion first) and whole walks are "
+             "decided by the reference-walk oracle and the correspondence.",
+        note=TTY_NOTE + "Default history back end.",
+        technique="Coq proof: 'keeps the history field' calculus over the editor monad with fuel induction for every loop; symbolic execution of the recall steps; extracted-model differential check through a pty + reference-walk oracle"),
     "C13": dict(
         text="Theorems for every validator, editor state and text: executing Enter / C-j / C-m says Submit only if the verdict on "
              "the current text is Valid, and then text and cursor are exactly those validated; a Valid verdict does submit; "
